@@ -3225,3 +3225,84 @@ func c02R11(c *Ctx, r *Report) {
 	r.Check(nT > 0 && len(hits) == 0, rule, fn.Name(), "float -> i8/i16 is reduced to the declared width", where,
 		"a float is converted to a word and called an i8 / i16 without reducing it: `(300.0 as i8) as i32` is 300 natively and 44 on wasm")
 }
+
+// ---- C12.R8: no method receiver is dropped silently ------------------------------------------------------------
+
+func init() {
+	lateInits = append(lateInits, func() {
+		props["C12"].Quick = append(props["C12"].Quick, c12R8)
+		props["C03"].Quick = append(props["C03"].Quick, c12R8)
+		props["C12"].Explanation += " (R8) collector.extractReceiverTypeName reports a diagnostic on every path that returns an invalid receiver, and its reference branch recognises the same base type nodes (identifier, module::Type) as the by-value forms: `fn (c: &lib::Counter) Leak()` is refused like `fn (c: lib::Counter) Leak()`."
+	})
+}
+
+func c12R8(c *Ctx, r *Report) {
+	const rule = "C12.R8"
+	r.Describe(rule, "collector.extractReceiverTypeName: every `return …, false` is dominated by a Diagnostics.Add; the AST node types type-asserted on receiverType and returned as valid are also type-asserted on the Base of the *ast.ReferenceType branch")
+	fn := c.LookupFn(pkgCollector, "extractReceiverTypeName")
+	bagAdd := c.LookupFn("internal/diagnostics", "(*DiagnosticBag).Add")
+	if !r.Anchor(rule, fn != nil && bagAdd != nil, "collector.extractReceiverTypeName / DiagnosticBag.Add") {
+		return
+	}
+	info := fn.Info()
+	nRet := 0
+	hits := mustFlow(c.CFG(fn), FlowSpec{
+		Gate: func(n ast.Node) bool { return nodeCalls(info, n, bagAdd.Obj) != nil },
+		Target: func(n ast.Node) bool {
+			ret, ok := n.(*ast.ReturnStmt)
+			if !ok || len(ret.Results) != 3 {
+				return false
+			}
+			if v := constOf(info, ret.Results[2]); v != nil && !boolVal(v) {
+				nRet++
+				return true
+			}
+			return false
+		},
+	})
+	where := c.pos(fn.Decl.Pos())
+	if len(hits) > 0 && hits[0].Pos.IsValid() {
+		where = c.pos(hits[0].Pos)
+	}
+	r.Check(nRet > 0 && len(hits) == 0, rule, fn.Name(), "an invalid receiver is reported", where,
+		"a receiver type is declared invalid without a diagnostic: the method is dropped silently, `ferret -t` accepts `fn (c: &lib::Counter) Leak() -> i32 { return c.secret; }` (a method on a foreign type reading its private field) and `fn (a: []i32) Sum()`")
+	// sibling agreement: by-value forms vs. the reference branch
+	asserted := func(root ast.Node, subject string) map[string]bool {
+		out := map[string]bool{}
+		ast.Inspect(root, func(x ast.Node) bool {
+			if ta, ok := x.(*ast.TypeAssertExpr); ok && ta.Type != nil && exprStr(ta.X) == subject {
+				out[exprStr(ta.Type)] = true
+			}
+			return true
+		})
+		return out
+	}
+	var refBranch *ast.IfStmt
+	var refVar string
+	ast.Inspect(fn.Decl.Body, func(x ast.Node) bool {
+		ifs, ok := x.(*ast.IfStmt)
+		if !ok || ifs.Init == nil {
+			return true
+		}
+		if as, ok := ifs.Init.(*ast.AssignStmt); ok && len(as.Rhs) == 1 {
+			if ta, ok := as.Rhs[0].(*ast.TypeAssertExpr); ok && ta.Type != nil && strings.HasSuffix(exprStr(ta.Type), "ReferenceType") {
+				refBranch = ifs
+				refVar = exprStr(as.Lhs[0])
+			}
+		}
+		return true
+	})
+	if !r.Anchor(rule, refBranch != nil, "extractReceiverTypeName: branch for *ast.ReferenceType") {
+		return
+	}
+	sig := fn.Obj.Type().(*types.Signature)
+	subject := sig.Params().At(1).Name()
+	top := asserted(fn.Decl.Body, subject)
+	inRef := asserted(refBranch.Body, refVar+".Base")
+	for _, t := range sortedKeys(top) {
+		if strings.HasSuffix(t, "IdentifierExpr") || strings.HasSuffix(t, "ScopeResolutionExpr") {
+			r.Check(inRef[t], rule, fn.Name(), "reference receiver handles base "+t, c.pos(refBranch.Pos()),
+				"the by-value receiver form recognises "+t+" and the reference form does not: a `&module::Type` receiver falls through as unsupported")
+		}
+	}
+}
